@@ -78,7 +78,7 @@ EXTRA["C14"] = {
 
 EXTRA["C15"] = {
     "text": "Bounded symbolic model checking of the real unify / unify_all (type_checker.rs) on type templates of depth 1 "
-            "(quick) / 2: for every feasible path returning a combined type u the real is_subtype is executed on (a,u) "
+            "(quick) / first argument depth 2 and second depth 1, unify(t,t) at depth 2 (thorough): for every feasible path returning a combined type u the real is_subtype is executed on (a,u) "
             "and (b,u) and z3 decides both hold; unify(t,t) returns Some(t) (structural equality, merged); unify_all "
             "over 2 (quick) / 3 elements covers every element. Replay through `garden verif unify` / `subtype`. "
             "Part B (join data-flow kernel): each join site of the real checker - check_match (inferring and checking), "
